@@ -301,13 +301,19 @@ func runFoScenario(d *Driver, id string, sc foScenario, res *Result) (trace []st
 					return &foViolation{"C06", "monitor", "fo:refresh-ttl", fmt.Sprintf("after %s: goroutine %d re-stores the stale value with ttl %d, UpdateTTL is %d", step, co.tid, co.ttl, ut), nil}
 				}
 			}
-			if co.kind == "write" && storesBuild[co.tid] && len(lastBuildTTLs[co.tid]) == 0 {
+			if co.kind == "write" && storesBuild[co.tid] {
+				// the statement itself: caller's ttl (backend default 0 if none) lowered to the smallest non-zero ttl the builder set
 				want := int64(0)
 				if sc.Threads[co.tid].HasCell {
 					want = sc.Threads[co.tid].Cell
+					for _, u := range lastBuildTTLs[co.tid] {
+						if u != 0 && (want == 0 || u < want) {
+							want = u
+						}
+					}
 				}
 				if co.ttl != want {
-					return &foViolation{"C06", "monitor", "fo:store-ttl", fmt.Sprintf("after %s: goroutine %d stores the built value with ttl %d, the caller's context carries %d and the builder set none", step, co.tid, co.ttl, want), nil}
+					return &foViolation{"C06", "monitor", "fo:store-ttl", fmt.Sprintf("after %s: goroutine %d stores the built value with ttl %d; caller ttl %d (has cell: %v), builder updates %v: the smallest non-zero of them is %d", step, co.tid, co.ttl, sc.Threads[co.tid].Cell, sc.Threads[co.tid].HasCell, lastBuildTTLs[co.tid], want), nil}
 				}
 			}
 		}
